@@ -6,7 +6,7 @@
 From Coq Require Import List NArith.
 From RaftLog Require Import Base.Bytes Model.Types Model.Cache Model.Core Model.Recover Model.Run Model.Sys.
 From RaftLog Require Import Spec.Durable Proofs.NoPanic Proofs.CrashSteps Proofs.CrashRecover.
-From RaftLog Require Proofs.CodecFacts Proofs.ScanFacts Proofs.RestartSys Proofs.RestartCrash Proofs.RestartCrashImg Proofs.RestartChain Proofs.RestartCrashIter.
+From RaftLog Require Proofs.CodecFacts Proofs.ScanFacts Proofs.RestartSys Proofs.RestartCrash Proofs.RestartCrashImg Proofs.RestartChain Proofs.RestartCrashIter Proofs.RestartCrashErase.
 Import ListNotations.
 
 (* Finding F3: a vote that fills the chunk (chunk_max_records = 2) rotates; right after the
@@ -97,9 +97,22 @@ Theorem C05_recovers_again : forall cfg cfg' cfg'' d z1 d1 z2 d2,
             (forall ops res fin, run_ops y ops = (res, fin) -> ~ In ResPanic res).
 Proof. exact RestartCrashIter.C05_recovers_again. Qed.
 
+(* the synced marks of the START directory do not matter for recoverability (they matter for
+   the durability contracts of C04/C08): a lock-step simulation against the run from the
+   rebooted directory shows that the journal invariant never reads them.  So for ANY sorted,
+   chained directory — whatever a previous process left unsynced in older files — every crash
+   image of the new instance outside the gap class opens and the recovered store never panics *)
+Theorem C05_recovers_outside_known_from_any_marks : forall cfg cfg' d z d',
+  disk_sorted d -> RestartCrash.dir_chained d -> RestartSys.zreach_from cfg d z -> hist_wf z ->
+  crash_image z d' -> ~ gap_class d' -> c_truncate cfg' = true ->
+  exists y', open_dir cfg' d' = OpenOk y' /\ sys_ok y' /\
+             (forall ops res fin, run_ops y' ops = (res, fin) -> ~ In ResPanic res).
+Proof. exact RestartCrashErase.C05_recovers_outside_known_from_any_marks. Qed.
+
 Print Assumptions C05_refuted_gap.
 Print Assumptions C05_recovers_outside_known.
 Print Assumptions C05_recovers_outside_known_from.
 Print Assumptions C05_from_nonvacuous.
 Print Assumptions C05_reboot_next_instance.
 Print Assumptions C05_recovers_again.
+Print Assumptions C05_recovers_outside_known_from_any_marks.
